@@ -486,6 +486,169 @@ pub async fn tls_cell(pki: Arc<Pki>, dict: Arc<Dictionary>, spec: Vec<String>) -
     }
 }
 
+/* ---------------------------------------------------------------- C11 / C12 over real TCP (supporting) */
+
+/// `ctcp n=<k> perm=<i.j.k> eager=<0|1> cut=<octets|-> reset=<0|1> id=<x>`: the library's client through `connect()` on a
+/// multi-threaded runtime against a hand-written peer. The peer answers the requests in the order `perm` (each answer
+/// is 32 octets, written in pieces); `eager`: an answer is sent as soon as the header of its request has arrived;
+/// `cut`: the peer closes (or resets) after that many octets of the answer stream.
+/// answer: `res=<got:hbh:e2e | err | pending per request>`
+pub async fn client_tcp(dict: Arc<Dictionary>, spec: Vec<String>) -> String {
+    let mut kv = std::collections::HashMap::new();
+    for t in spec.iter() {
+        if let Some((k, v)) = t.split_once('=') {
+            kv.insert(k.to_string(), v.to_string());
+        }
+    }
+    let n: usize = kv.get("n").and_then(|x| x.parse().ok()).unwrap_or(1);
+    let perm: Vec<usize> = kv.get("perm").map(|p| p.split('.').filter_map(|x| x.parse().ok()).collect()).unwrap_or_default();
+    let eager = kv.get("eager").map(|x| x == "1").unwrap_or(false);
+    let cut: Option<usize> = kv.get("cut").and_then(|x| x.parse().ok());
+    let reset = kv.get("reset").map(|x| x == "1").unwrap_or(false);
+    let base: u32 = kv.get("id").and_then(|x| x.parse::<u32>().ok()).unwrap_or(0).wrapping_mul(1000).wrapping_add(17);
+    let l = match TcpListener::bind("127.0.0.1:0").await {
+        Ok(l) => l,
+        Err(_) => return "skipped".into(),
+    };
+    let addr = l.local_addr().unwrap();
+    let d2 = dict.clone();
+    let perm2 = perm.clone();
+    let peer = tokio::spawn(async move {
+        let (mut s, _) = match l.accept().await {
+            Ok(x) => x,
+            Err(_) => return,
+        };
+        s.set_nodelay(true).ok();
+        // read request headers / bodies; remember (hbh, e2e) per request index
+        let mut seen: Vec<(u32, u32)> = vec![];
+        let mut pending_body = 0usize;
+        let mut sent_total = 0usize;
+        let mut answered = vec![false; n];
+        let mut next = 0usize; // position in perm
+        let answer = |h: u32, e: u32| -> Vec<u8> {
+            let mut m = DiameterMessage::new(CommandCode::CreditControl, ApplicationId::CreditControl, 0, h, e, d2.clone());
+            m.add_avp(268, None, 0x40, Unsigned32::new(2001).into());
+            frame(&m)
+        };
+        loop {
+            // answer whatever the plan allows now
+            while next < perm2.len() {
+                let j = perm2[next];
+                let ready = if eager { j < seen.len() } else { seen.len() == n && pending_body == 0 };
+                if !ready || answered[j] {
+                    break;
+                }
+                let f = answer(seen[j].0, seen[j].1);
+                let mut off = 0;
+                for piece in [3usize, 17, 64] {
+                    let mut end = (off + piece).min(f.len());
+                    if let Some(c) = cut {
+                        if sent_total + (end - off) > c {
+                            end = off + (c - sent_total);
+                        }
+                    }
+                    if end > off {
+                        if s.write_all(&f[off..end]).await.is_err() {
+                            return;
+                        }
+                        sent_total += end - off;
+                        off = end;
+                        tokio::time::sleep(Duration::from_millis(1)).await;
+                    }
+                    if let Some(c) = cut {
+                        if sent_total >= c {
+                            if reset {
+                                // a reset discards what the client has not read yet: let it read first
+                                tokio::time::sleep(Duration::from_millis(60)).await;
+                                let _ = s.set_linger(Some(Duration::from_secs(0)));
+                            } else {
+                                let _ = s.shutdown().await;
+                                tokio::time::sleep(Duration::from_millis(30)).await;
+                            }
+                            return;
+                        }
+                    }
+                    if off >= f.len() {
+                        break;
+                    }
+                }
+                answered[j] = true;
+                next += 1;
+            }
+            if let Some(0) = cut {
+                if seen.len() == n && pending_body == 0 {
+                    if reset {
+                        let _ = s.set_linger(Some(Duration::from_secs(0)));
+                    } else {
+                        let _ = s.shutdown().await;
+                        tokio::time::sleep(Duration::from_millis(30)).await;
+                    }
+                    return;
+                }
+            }
+            if next >= perm2.len() && seen.len() == n && pending_body == 0 {
+                // everything answered: stay open until the client goes away
+                let mut b = [0u8; 64];
+                loop {
+                    match s.read(&mut b).await {
+                        Ok(0) | Err(_) => return,
+                        Ok(_) => {}
+                    }
+                }
+            }
+            // read more of the request stream
+            if pending_body > 0 {
+                let mut b = vec![0u8; pending_body.min(4096)];
+                match s.read(&mut b).await {
+                    Ok(0) | Err(_) => return,
+                    Ok(k) => pending_body -= k,
+                }
+            } else {
+                let mut h = [0u8; 20];
+                if s.read_exact(&mut h).await.is_err() {
+                    return;
+                }
+                let len = u32::from_be_bytes([0, h[1], h[2], h[3]]) as usize;
+                seen.push((u32::from_be_bytes([h[12], h[13], h[14], h[15]]), u32::from_be_bytes([h[16], h[17], h[18], h[19]])));
+                pending_body = len.saturating_sub(20);
+            }
+        }
+    });
+    let mut client = DiameterClient::new(&format!("127.0.0.1:{}", addr.port()), DiameterClientConfig { use_tls: false, verify_cert: false });
+    let mut handler = match tokio::time::timeout(Duration::from_secs(5), client.connect()).await {
+        Ok(Ok(h)) => h,
+        _ => return "res=connect-failed".into(),
+    };
+    let d3 = dict.clone();
+    tokio::spawn(async move {
+        DiameterClient::handle(&mut handler, d3).await;
+    });
+    let mut futs = vec![];
+    for i in 0..n {
+        let hbh = base.wrapping_add(i as u32);
+        // requests of different sizes so that eager answers overtake a request still being written
+        let marker = "x".repeat([0usize, 10, 3000, 70000][i % 4]);
+        let r = tokio::time::timeout(Duration::from_secs(8), client.send_message(request(&dict, hbh, hbh ^ 0xabcd, &marker))).await;
+        futs.push(match r {
+            Ok(Ok(f)) => Some(f),
+            _ => None,
+        });
+    }
+    let mut res = vec![];
+    for f in futs {
+        res.push(match f {
+            None => "sendfail".to_string(),
+            Some(f) => match tokio::time::timeout(Duration::from_secs(8), f).await {
+                Err(_) => "pending".to_string(),
+                Ok(Ok(m)) => format!("got:{}:{}", m.get_hop_by_hop_id(), m.get_end_to_end_id()),
+                Ok(Err(_)) => "err".to_string(),
+            },
+        });
+    }
+    peer.abort();
+    format!("res={}", res.join(","))
+}
+
 /// runs a batch of real-socket scenarios concurrently on a multi-threaded runtime; results in input order
 pub fn run_batch(rt: &tokio::runtime::Runtime, pki: Arc<Pki>, dict: Arc<Dictionary>, lines: Vec<String>) -> Vec<String> {
     rt.block_on(async move {
@@ -497,6 +660,7 @@ pub fn run_batch(rt: &tokio::runtime::Runtime, pki: Arc<Pki>, dict: Arc<Dictiona
                 match toks[0].as_str() {
                     "lsn" => listener_scenario(pki, dict, toks[1..].to_vec()).await,
                     "tls" => tls_cell(pki, dict, toks[1..].to_vec()).await,
+                    "ctcp" => client_tcp(dict, toks[1..].to_vec()).await,
                     _ => "bad-op".to_string(),
                 }
             }));
